@@ -3,9 +3,13 @@ package c01
 import (
 	"context"
 	"fmt"
+	"io"
 	"net/http"
 	"testing"
 	"testing/synctest"
+	"time"
+
+	connect "github.com/bufbuild/connect-go"
 
 	"github.com/bufbuild/connect-go/verif/memnet"
 	"github.com/bufbuild/connect-go/verif/pbt"
@@ -22,6 +26,10 @@ type Case struct {
 	Req       []prog.Msg  `json:"req"`
 	Res       []prog.Msg  `json:"res"`
 	Pattern   string      `json:"pattern,omitempty"` // bidi: pingpong | batch | sendfirst
+	// net only (virtual time): the transport's request-body reads lag by LagNS
+	// each, and ServeHTTP returns ExitDelayNS after the connect handler finished.
+	LagNS       int64 `json:"lag_ns,omitempty"`
+	ExitDelayNS int64 `json:"exit_delay_ns,omitempty"`
 }
 
 func sizeGen(thresholds []int, big bool) *rapid.Generator[int] {
@@ -289,9 +297,20 @@ func checkNet(tt *testing.T, c Case) (pbt.Info, error) {
 	berr := pbt.Bubble(tt, func() error {
 		mux := http.NewServeMux()
 		mux.Handle(prog.Procedure(c.Cfg.Kind), h)
-		pn := memnet.NewPipeNet(mux, c.Transport == "h2c")
+		var root http.Handler = mux
+		if c.ExitDelayNS > 0 {
+			root = http.HandlerFunc(func(w http.ResponseWriter, r *http.Request) {
+				mux.ServeHTTP(w, r)
+				time.Sleep(time.Duration(c.ExitDelayNS))
+			})
+		}
+		pn := memnet.NewPipeNet(root, c.Transport == "h2c")
+		var hc connect.HTTPClient = pn.Client
+		if c.LagNS > 0 {
+			hc = laggingClient{inner: pn.Client, lag: time.Duration(c.LagNS)}
+		}
 		ctx, cancel := context.WithCancel(context.Background())
-		res := prog.RunClient(ctx, pn.Client, c.Cfg, cp, cancel)
+		res := prog.RunClient(ctx, hc, c.Cfg, cp, cancel)
 		cancel()
 		pn.Close()
 		synctest.Wait()
@@ -304,6 +323,28 @@ func checkNet(tt *testing.T, c Case) (pbt.Info, error) {
 		return info, berr
 	}
 	return info, verr
+}
+
+type laggingClient struct {
+	inner connect.HTTPClient
+	lag   time.Duration
+}
+
+type laggingBody struct {
+	io.ReadCloser
+	lag time.Duration
+}
+
+func (b laggingBody) Read(p []byte) (int, error) {
+	time.Sleep(b.lag)
+	return b.ReadCloser.Read(p)
+}
+
+func (l laggingClient) Do(r *http.Request) (*http.Response, error) {
+	if r.Body != nil {
+		r.Body = laggingBody{ReadCloser: r.Body, lag: l.lag}
+	}
+	return l.inner.Do(r)
 }
 
 func verdict(c Case, log *prog.HLog, res *prog.CResult) error {
@@ -341,6 +382,10 @@ func verdict(c Case, log *prog.HLog, res *prog.CResult) error {
 func netGen(t *rapid.T) Case {
 	tr := rapid.SampledFrom([]string{"h1", "h2c"}).Draw(t, "transport")
 	c := gen(tr, 6, false)(t)
+	if rapid.IntRange(0, 3).Draw(t, "lagging") == 0 {
+		c.LagNS = rapid.SampledFrom([]int64{1e6, 100e6}).Draw(t, "lag")
+		c.ExitDelayNS = rapid.SampledFrom([]int64{0, 50e6, 500e6}).Draw(t, "exitDelay")
+	}
 	if tr == "h1" && c.Cfg.Kind == prog.Bidi {
 		// bidi needs HTTP/2: use a half-duplex kind instead
 		c.Cfg.Kind = prog.Client
@@ -357,7 +402,7 @@ var specNet = pbt.Spec[Case]{
 	Prop: "C01", Name: "net",
 	Gen:   netGen,
 	Check: checkNet,
-	Rule:  "same generator as [mem] but carried by the real net/http server and transport (HTTP/1.1 and unencrypted HTTP/2) over net.Pipe inside a synctest bubble; non-trivial as in [mem] except that compression is judged from the configuration, not the wire",
+	Rule:  "same generator as [mem] but carried by the real net/http server and transport (HTTP/1.1 and unencrypted HTTP/2) over net.Pipe inside a synctest bubble, optionally with lagging request-body reads and a delayed return of ServeHTTP (virtual time); non-trivial as in [mem] except that compression is judged from the configuration, not the wire",
 }
 
 func TestNet(t *testing.T) { pbt.Run(t, specNet) }
